@@ -192,6 +192,54 @@ fn check_program(lines: &[String], replies: &[String], model: Option<&ProgramAst
     }
 }
 
+/// After a run has ended (or failed, or stopped), execution is sent back into each line of
+/// the program with an immediate GOTO, with tracing switched on by each route: the first trace
+/// record must name that line.
+fn reentry_check(lines: &[String], replies: &[String], name: &str, acc: &mut Acc) {
+    let numbers: Vec<u64> = lines.iter().filter_map(|l| l.split(' ').next().and_then(|n| n.parse().ok())).collect();
+    for &target in &numbers {
+        for via_command in [false, true] {
+            let mut s = Sess::new();
+            let mut hist = vec![];
+            for l in lines {
+                let e = Ev::Line(l.clone());
+                let _ = s.apply(&e);
+                hist.push(e);
+            }
+            let mut it = replies.iter().cloned();
+            let _ = s.run_line("RUN", &mut it, 300);
+            hist.push(Ev::LineToIdle("RUN".into()));
+            if s.state() != abasic_core::InterpreterState::Idle {
+                let _ = s.apply(&Ev::Break);
+                hist.push(Ev::Break);
+            }
+            if via_command {
+                let _ = s.apply(&Ev::Line("TRACE".into()));
+                hist.push(Ev::Line("TRACE".into()));
+            } else {
+                s.it.enable_tracing = true;
+            }
+            s.recs.clear();
+            acc.runs += 1;
+            let go = format!("GOTO {}", target);
+            let _ = s.run_line(&go, &mut it, 20);
+            hist.push(Ev::LineToIdle(go.clone()));
+            let first = s.recs.iter().find_map(|r| if let Rec::Trace(l) = r { Some(*l) } else { None });
+            if first != Some(target) {
+                acc.violating += 1;
+                if acc.viol.len() < 20 {
+                    acc.viol.push(Violation {
+                        signature: format!("trace after re-entering a line with GOTO does not start with that line [{}]", name),
+                        detail: format!("after the run, tracing on ({}), {}: first trace record {:?}, records {:?}", if via_command { "TRACE command" } else { "API field" }, go, first, s.recs),
+                        case: case_history(&hist, false, !via_command),
+                    });
+                }
+                return;
+            }
+        }
+    }
+}
+
 pub fn run(thorough: bool) -> Report {
     let mut rep = Report::new("C17", "exploration");
     let total = Mutex::new(Acc::default());
@@ -200,6 +248,7 @@ pub fn run(thorough: bool) -> Report {
         let replies: Vec<String> = p.replies.iter().map(|l| l.to_string()).collect();
         let mut acc = Acc::default();
         check_program(&lines, &replies, None, p.name, &mut acc);
+        reentry_check(&lines, &replies, p.name, &mut acc);
         merge(&total, acc);
     }
     let full = full_menu();
